@@ -421,6 +421,7 @@ def drive(prop, tier, seed, stage_dir, only_case=None, nworkers=None):
     nontriv_fps = set()
     trans = 0
     metrics = {}
+    metrics_at = {}
     outcomes = {}
     for c, r in zip(cases, results):
         trans += int(r.get("trans", 1))
@@ -438,6 +439,7 @@ def drive(prop, tier, seed, stage_dir, only_case=None, nworkers=None):
                 continue
             if k not in metrics or val > metrics[k]:
                 metrics[k] = val
+                metrics_at[k] = c["id"]
     cov = {
         "states": len(cases),
         "transitions": trans,
@@ -454,6 +456,7 @@ def drive(prop, tier, seed, stage_dir, only_case=None, nworkers=None):
         "outcome_classes": outcomes,
         "max_observed": {k: float("%.3e" % v) for k, v in
                          sorted(metrics.items())},
+        "max_observed_at": {k: metrics_at[k] for k in sorted(metrics_at)},
         "tolerances": getattr(mod, "TOLERANCES", {}),
         "known_findings_matched": sorted({(k["id"] if "id" in k else
                                            k["case"]) for _, _, k in knowns}),
